@@ -194,7 +194,7 @@ def run(ctx):
     # R4
     from ..assembly import com_setup_verdicts
     cv = com_setup_verdicts(repo)
-    ctx.check(cv["dof"][0], "R4", md, md.func("XL_BOMD.set_dof"), "set_dof", "n_dof of the three engines", cv["dof"][1], cv["dof"][1])
+    ctx.check(cv["dof"][0], "R4", md, md.func("XL_BOMD.set_dof") if md.has_func("XL_BOMD.set_dof") else md.func("Molecular_Dynamics_Basic.set_dof"), "set_dof", "n_dof of the three engines", cv["dof"][1], cv["dof"][1])
     ctx.check(cv["mode"][0], "R4", md, md.func("Molecular_Dynamics_Basic.initialize"), "Molecular_Dynamics_Basic.initialize", "constraints", cv["mode"][1], cv["mode"][1])
     bi = md.func("Molecular_Dynamics_Basic.initialize")
     g = build_cfg(bi)
